@@ -506,4 +506,36 @@ Section C.
     { rewrite <- (Rmult_0_r Nj). apply Rmult_lt_compat_l; assumption. }
     lra.
   Qed.
+
+  (* ---------------------------------------------------------------- *)
+  (* the same statements with their domain spelled out: indices in range (the
+     code raises IndexError otherwise, the model's `nth` would read a default),
+     a non-zero weight sum (the code divides by it), lists of equal length *)
+  Theorem pipe_value_plain_guarded opa N ns a_k n_sel src_idxs evt_idxs (f0 : rfactor) fs :
+    wf_factor evt_idxs n_sel f0 -> List.Forall (wf_factor evt_idxs n_sel) fs ->
+    List.Forall (fun e => (e < n_sel)%nat) evt_idxs ->
+    pipe_value Nm opa N ns false a_k n_sel src_idxs evt_idxs f0 fs
+    = logLambda_manual (opa - 1) N ns (rows_ratios evt_idxs f0 fs).
+  Proof. intros H0 Hfs _. apply (pipe_value_plain opa N ns a_k n_sel src_idxs evt_idxs f0 fs H0 Hfs). Qed.
+
+  Theorem pipe_value_stacked_guarded opa N ns a_k n_sel src_idxs evt_idxs (f0 : rfactor) fs :
+    wf_factor evt_idxs n_sel f0 -> List.Forall (wf_factor evt_idxs n_sel) fs ->
+    length src_idxs = length evt_idxs -> NoDup (combine src_idxs evt_idxs) ->
+    List.Forall (fun e => (e < n_sel)%nat) evt_idxs ->
+    List.Forall (fun k => (k < length a_k)%nat) src_idxs ->
+    Rsum a_k <> 0 ->
+    pipe_value Nm opa N ns true a_k n_sel src_idxs evt_idxs f0 fs
+    = logLambda_manual (opa - 1) N ns
+        (map (stacked_spec a_k (combine (combine src_idxs evt_idxs) (rows_ratios evt_idxs f0 fs)))
+             (seq 0 n_sel)).
+  Proof.
+    intros H0 Hfs HL Hnd _ _ _.
+    apply (pipe_value_stacked opa N ns a_k n_sel src_idxs evt_idxs f0 fs H0 Hfs HL Hnd).
+  Qed.
+
+  Theorem multi_value_spec_guarded opa ns (f : list R) (ds : list (R * list R)) :
+    length f = length ds ->
+    List.Forall (fun p : R * (R * list R) => 0 < fst (snd p) /\ ns * fst p < fst (snd p)) (combine f ds) ->
+    multi_value Nm opa ns f ds = multi_manual (opa - 1) ns f ds.
+  Proof. intros _ _. apply multi_value_spec. Qed.
 End C.
